@@ -849,7 +849,7 @@ mod chain {
 	struct Tally { sent: u32, failed: u32, path_failed: u32 }
 
 	struct Sc<'a> { net: Net, rec: &'a mut Rec, cid: ChannelId, tag: String, txids: BTreeMap<String, u64>, srcs: BTreeMap<String, u64>, log: Vec<String>,
-		ids: Vec<PaymentId>, tallies: Vec<Tally>, ev_seen: usize, restarted: u32, listed_now: Vec<usize> }
+		ids: Vec<PaymentId>, tallies: Vec<Tally>, ev_seen: usize, restarted: u32, listed_now: Vec<usize>, last_fields: String, last_pre: Vec<String> }
 
 	fn intern(m: &mut BTreeMap<String, u64>, k: &str) -> String { if k == "-" { return "-".into(); } let n = m.len() as u64 + 1; m.entry(k.to_string()).or_insert(n).to_string() }
 
@@ -922,6 +922,8 @@ mod chain {
 			let conf = if fsc != "-" { fsc.clone() } else { aw.iter().filter_map(|a| { let x: Vec<&str> = a.split(':').collect(); let b: u32 = best.parse().unwrap_or(0); let h: u32 = x[1].parse().unwrap_or(0);
 				if x[2] == "1" && h + ANTI_REORG_DELAY - 1 <= b { Some(x[0].to_string()) } else { None } }).next().unwrap_or("-".into()) };
 			let arm = if conf == "-" { "unconfirmed" } else if conf == cur { "counterparty-current" } else if conf == prev { "counterparty-previous" } else if conf == hct { "holder-current" } else if conf == hpt { "holder-previous" } else { "other" };
+			self.last_fields = op[4..].to_string();
+			self.last_pre = listed.iter().filter(|l| l.ends_with("preimage=1")).map(|l| intern(&mut self.srcs, l.split(' ').next().unwrap_or(""))).collect();
 			self.log.push(format!("[{}] {} => {}", stage, op, ans));
 			self.rec.case(&op, &ans, &format!("ocf:{}:{}", arm, if nums.is_empty() { "none" } else { "some" }), arm != "unconfirmed");
 			// get_all_current_outbound_htlcs on the same view
@@ -932,6 +934,73 @@ mod chain {
 			self.rec.case(&op2, &ans2, &format!("acur:{}", lnums.len().min(3)), !lnums.is_empty());
 			self.listed_now = listed.iter().filter_map(|k| self.ids.iter().position(|id| k.starts_with(&format!("route:{}:", id)))).collect();
 			real.iter().filter_map(|k| self.ids.iter().position(|id| k.starts_with(&format!("route:{}:", id)))).collect()
+		}
+		/// a restart right after the sender's events were handled, as one `rout` case per payment without a terminal event so far:
+		/// what `ChannelManager::read` makes of the payment (PaymentSent / PaymentFailed / still pending), against restartOutcome
+		fn restart_rout(&mut self, extra_open_part: bool) -> Result<(), String> {
+			self.drain();
+			self.ocf("pre-restart");
+			let before: Vec<(u32, u32)> = self.tallies.iter().map(|t| (t.sent, t.failed)).collect();
+			let mut persisted: Vec<Option<String>> = vec![];
+			for k in 0..self.ids.len() {
+				let listed = self.net.nodes[0].node.list_recent_payments().iter().any(|r| match r { RecentPaymentDetails::Pending { payment_id, .. } | RecentPaymentDetails::Abandoned { payment_id, .. } => *payment_id == self.ids[k], _ => false });
+				let pre = format!("route:{}:", self.ids[k]);
+				let num = self.srcs.iter().find(|(key, _)| key.starts_with(&pre)).map(|(_, n)| n.to_string());
+				persisted.push(if listed && before[k] == (0, 0) { num } else { None });
+			}
+			let (fields, pre) = (self.last_fields.clone(), self.last_pre.clone());
+			self.restart()?;
+			self.drain();
+			for k in 0..self.ids.len() {
+				if let Some(num) = &persisted[k] {
+					let t = &self.tallies[k];
+					let obs = if t.sent > before[k].0 { "sent" } else if t.failed > before[k].1 { "failed" } else { "pending" };
+					let op = format!("rout {}{} {} 0 {} {}", num, if extra_open_part { ",99" } else { "" }, if pre.is_empty() { "-".to_string() } else { pre.join(",") }, if extra_open_part { 1 } else { 0 }, fields);
+					let ans = format!("outcome {}", obs);
+					self.log.push(format!("{} => {}", op, ans));
+					self.rec.case(&op, &ans, &format!("rout:{}:{}", obs, if extra_open_part { "mpp" } else { "single" }), true);
+				}
+			}
+			Ok(())
+		}
+		/// which payments the manager holds as pending right now (source numbers), for a later restart from THIS manager
+		fn persisted_now(&mut self) -> Vec<Option<String>> {
+			let mut persisted = vec![];
+			for k in 0..self.ids.len() {
+				let listed = self.net.nodes[0].node.list_recent_payments().iter().any(|r| match r { RecentPaymentDetails::Pending { payment_id, .. } | RecentPaymentDetails::Abandoned { payment_id, .. } => *payment_id == self.ids[k], _ => false });
+				let pre = format!("route:{}:", self.ids[k]);
+				let num = self.srcs.iter().find(|(key, _)| key.starts_with(&pre)).map(|(_, n)| n.to_string());
+				persisted.push(if listed && self.tallies[k].sent == 0 && self.tallies[k].failed == 0 { num } else { None });
+			}
+			persisted
+		}
+		/// restart from a manager written EARLIER (`mgr`, with `persisted` = persisted_now() at that time) and the CURRENT monitors; the
+		/// user has handled no event since (nothing was released to the monitors). The manager is then told the current tip.
+		fn restart_stale(&mut self, mgr: &[u8], persisted: Vec<Option<String>>, extra_open_part: bool) -> Result<(), String> {
+			self.ocf("pre-restart,stale-manager");
+			let before: Vec<(u32, u32)> = self.tallies.iter().map(|t| (t.sent, t.failed)).collect();
+			let (fields, pre) = (self.last_fields.clone(), self.last_pre.clone());
+			let (_, mons) = self.net.snapshot(0);
+			self.net.restart_from(0, mgr, &mons).map_err(|e| format!("restart failed: {}", e))?;
+			self.restarted += 1; self.log.push("RESTART sender (manager written before the last block(s), current monitor)".into());
+			{
+				use lightning::chain::Confirm;
+				let (header, height) = { let b = self.net.nodes[0].blocks.lock().unwrap(); let l = b.last().unwrap(); (l.0.header, l.1) };
+				self.net.nodes[0].node.best_block_updated(&header, height);
+				self.net.pump(0);
+			}
+			self.drain();
+			for k in 0..self.ids.len() {
+				if let Some(num) = &persisted[k] {
+					let t = &self.tallies[k];
+					let obs = if t.sent > before[k].0 { "sent" } else if t.failed > before[k].1 { "failed" } else { "pending" };
+					let op = format!("rout {}{} {} 0 {} {}", num, if extra_open_part { ",99" } else { "" }, if pre.is_empty() { "-".to_string() } else { pre.join(",") }, if extra_open_part { 1 } else { 0 }, fields);
+					let ans = format!("outcome {}", obs);
+					self.log.push(format!("{} => {}", op, ans));
+					self.rec.case(&op, &ans, &format!("rout:{}:{}:stale-manager", obs, if extra_open_part { "mpp" } else { "single" }), true);
+				}
+			}
+			Ok(())
 		}
 		fn restart(&mut self) -> Result<(), String> {
 			let (mgr, mons) = self.net.snapshot(0);
@@ -956,7 +1025,7 @@ mod chain {
 		let mut net = Net::new(2, vec![Some(test_legacy_channel_config()), Some(test_legacy_channel_config())]);
 		let c = net.open(0, 1, 1_000_000, 200_000_000);
 		let cid = net.chans[c].2;
-		let mut sc = Sc { net, rec, cid, tag: format!("c03chain {:?} seed={}", w, seed), txids: BTreeMap::new(), srcs: BTreeMap::new(), log: vec![], ids: vec![], tallies: vec![], ev_seen: 0, restarted: 0, listed_now: vec![] };
+		let mut sc = Sc { net, rec, cid, tag: format!("c03chain {:?} seed={}", w, seed), txids: BTreeMap::new(), srcs: BTreeMap::new(), log: vec![], ids: vec![], tallies: vec![], ev_seen: 0, restarted: 0, listed_now: vec![], last_fields: String::new(), last_pre: vec![] };
 		let r = guarded(std::panic::AssertUnwindSafe(|| world(w, &mut sc, c, seed)));
 		// the test nodes assert on drop that nothing is left unhandled: not our concern here
 		let Sc { net, rec, tag, log, .. } = sc; std::mem::forget(net);
@@ -972,9 +1041,16 @@ mod chain {
 		let p1 = sc.net.send(&[0, 1], &[c], amt1, 60)?; sc.net.settle(10);
 		if !sc.net.claimable[1].iter().any(|x| x.0 == sc.net.pays[p1].hash) { return Err("payment 1 did not reach the recipient".into()); }
 		sc.ids.push(sc.net.pays[p1].id);
-		if w.dance > 0 {
+		if w.dance == 1 || w.dance == 2 {
 			let p2 = sc.net.send(&[0, 1], &[c], amt2, 60)?; sc.ids.push(sc.net.pays[p2].id);
 			if w.dance == 2 { while sc.net.queued(0, 1) > 0 { sc.net.deliver(0, 1); } }
+		}
+		if w.dance == 3 {
+			// removal mid-dance: the recipient fails payment 1 back; the sender processes update_fail_htlc + commitment_signed and
+			// answers revoke_and_ack + commitment_signed (its CURRENT counterparty commitment no longer has the HTLC, the PREVIOUS
+			// unrevoked one still does); the answer is lost and the recipient closes with the commitment that still has the HTLC
+			sc.net.fail_back(p1); sc.net.forward(1); sc.net.pump(1);
+			for _ in 0..4 { if sc.net.queued(1, 0) > 0 { sc.net.deliver(1, 0); } }
 		}
 		sc.net.q.remove(&(0, 1)); sc.net.q.remove(&(1, 0));
 		sc.tag = format!("c03chain {:?} amt1={} amt2={} seed={}", w, amt1, amt2, seed);
@@ -1003,6 +1079,15 @@ mod chain {
 		let check = |sc: &mut Sc, stage: &str, buried: bool, timed_out: &Vec<bool>| {
 			// the view before the sender's pending events are handled (what a restart at this instant reads), then after
 			let mut rep = sc.ocf(&format!("{},events-pending", stage));
+			// completeness: a payment whose HTLC has no output in the buried commitment, or whose output the sender claimed back
+			// (buried), and of which the user has not been told yet, MUST be reported (else a restart now would leave it pending forever)
+			for k in 0..sc.ids.len() {
+				let t = &sc.tallies[k];
+				if buried && (!in_tx[k] || timed_out[k]) && t.failed == 0 && t.sent == 0 && t.path_failed == 0 && !rep.contains(&k) && sc.listed_now.contains(&k) {
+					sc.rec.oracle_fail(format!("restart reconstruction (get_onchain_failed_outbound_htlcs) does NOT report payment {} although {} and the user has not been told (a restart now leaves it pending forever) [{}] :: {} :: {}", k + 1,
+						if !in_tx[k] { "its HTLC has no output in the irrevocably confirmed commitment transaction" } else { "its output was claimed back by the sender's timeout transaction, buried ANTI_REORG_DELAY deep" }, stage, sc.tag, sc.log.join(" | ")));
+				}
+			}
 			let ev = sc.drain();
 			for k in sc.ocf(stage) { if !rep.contains(&k) { rep.push(k); } }
 			if !buried && !rep.is_empty() { sc.rec.oracle_fail(format!("get_onchain_failed_outbound_htlcs reports payments {:?} failed although the commitment transaction has fewer than ANTI_REORG_DELAY confirmations [{}] :: {} :: {}", rep.iter().map(|k| k + 1).collect::<Vec<usize>>(), stage, sc.tag, sc.log.join(" | "))); }
@@ -1017,15 +1102,19 @@ mod chain {
 			let _ = ev;
 		};
 		check(sc, "depth=ARD-1", false, &timed_out);
-		if w.restarts & 1 != 0 { sc.restart()?; check(sc, "depth=ARD-1,restarted", false, &timed_out); }
+		if w.restarts & 1 != 0 { sc.restart_rout(false)?; check(sc, "depth=ARD-1,restarted", false, &timed_out); }
 		// ---- ANTI_REORG_DELAY confirmations
+		// bit 64: the manager on disk was written BEFORE the block that buries the close (the monitor is current): the restart
+		// reconstruction is then the only source of the failures
+		let early = w.restarts & 16 != 0;
+		let stale = if w.restarts & 64 != 0 && !early { use lightning::util::ser::Writeable; let p = sc.persisted_now(); Some((sc.net.nodes[0].node.encode(), p)) } else { None };
 		sc.blocks(|n| { connect_blocks(n, 1); });
 		// a restart at the very block that buries the close, BEFORE the sender's events were handled: a terminal event may then
 		// be repeated once (it had not been handled and persisted), never contradicted
-		let early = w.restarts & 16 != 0;
 		if early { sc.restart()?; }
+		if let Some((m, p)) = stale { sc.restart_stale(&m, p, false)?; }
 		check(sc, "depth=ARD", true, &timed_out);
-		if w.restarts & 2 != 0 { sc.restart()?; check(sc, "depth=ARD,restarted", true, &timed_out); }
+		if w.restarts & 2 != 0 { sc.restart_rout(false)?; check(sc, "depth=ARD,restarted", true, &timed_out); }
 		// ---- resolution of payment 1's output
 		let mut claimed = false;
 		if w.res == 0 && in_tx[0] {
@@ -1058,7 +1147,7 @@ mod chain {
 				check(sc, "timeout-buried", true, &timed_out);
 			}
 		}
-		if w.restarts & 8 != 0 { sc.restart()?; check(sc, "end,restarted", true, &timed_out); }
+		if w.restarts & 8 != 0 { sc.restart_rout(false)?; check(sc, "end,restarted", true, &timed_out); }
 		sc.blocks(|n| { connect_blocks(n, 2); });
 		check(sc, "end", true, &timed_out);
 		// ---- exactly one truthful terminal outcome per payment
@@ -1076,6 +1165,94 @@ mod chain {
 			let class = format!("outcome:{}:{}", if k == 0 && claimed { "claimed" } else if !in_tx[k] { "no-output" } else if timed_out[k] { "timed-out" } else { "live" }, if sc.restarted > 0 { "restarted" } else { "no-restart" });
 			*sc.rec.classes.entry(class).or_insert(0) += 1;
 		}
+		Ok(())
+	}
+
+	/// 2-part MPP payment over TWO channels 0-1; channel c0 is closed on chain (either side's latest commitment), c1 stays open.
+	/// Restart reconstruction must re-add / keep both parts; PaymentFailed is forbidden while the part on the live channel is pending,
+	/// whatever happens to the part on the closed one (dust: implicitly failed once buried; non-dust: live output).
+	pub fn scenario_mpp(w: World, rec: &mut Rec, seed: u64) -> Result<(), String> {
+		let mut net = Net::new(2, vec![Some(test_legacy_channel_config()), Some(test_legacy_channel_config())]);
+		let c0 = net.open(0, 1, 1_000_000, 200_000_000);
+		let c1 = net.open(0, 1, 1_000_000, 200_000_000);
+		let cid = net.chans[c0].2;
+		let mut sc = Sc { net, rec, cid, tag: format!("c03chain MPP {:?} seed={}", w, seed), txids: BTreeMap::new(), srcs: BTreeMap::new(), log: vec![], ids: vec![], tallies: vec![], ev_seen: 0, restarted: 0, listed_now: vec![], last_fields: String::new(), last_pre: vec![] };
+		let r = guarded(std::panic::AssertUnwindSafe(|| world_mpp(w, &mut sc, c0, c1, seed)));
+		let Sc { net, rec, tag, log, .. } = sc; std::mem::forget(net);
+		match r { Ok(x) => x, Err(p) => { rec.oracle_fail(format!("panic while driving the real nodes: {} :: {} :: {}", p.chars().take(300).collect::<String>(), tag, log.join(" | "))); Ok(()) } }
+	}
+
+	fn world_mpp(w: World, sc: &mut Sc, c0: usize, c1: usize, seed: u64) -> Result<(), String> {
+		use lightning::ln::functional_test_utils::get_payment_preimage_hash;
+		use lightning::ln::outbound_payment::RecipientOnionFields;
+		use lightning::routing::router::{Path, PaymentParameters, Route, RouteHop, RouteParameters};
+		use lightning::types::features::{ChannelFeatures, NodeFeatures};
+		let mut rng = Rng::new(seed);
+		let cid = sc.cid; let cid1 = sc.net.chans[c1].2;
+		let a: u64 = if w.dust { 100_000 + rng.below(150) * 1000 } else { 8_000_000 + rng.below(4000) * 1000 };
+		let b: u64 = 4_000_000 + rng.below(3000) * 1000;
+		let total = a + b;
+		let (preimage, hash, secret) = get_payment_preimage_hash(&sc.net.nodes[1], Some(total), None);
+		let hop = |c: usize, amt: u64| Path { hops: vec![RouteHop { pubkey: sc.net.ids[1], node_features: NodeFeatures::empty(), short_channel_id: sc.net.chans[c].3, channel_features: ChannelFeatures::empty(), fee_msat: amt, cltv_expiry_delta: 60, maybe_announced_channel: true }], blinded_tail: None };
+		let route = Route { paths: vec![hop(c0, a), hop(c1, b)], route_params: RouteParameters::from_payment_params_and_value(PaymentParameters::from_node_id(sc.net.ids[1], 60), total) };
+		let id = PaymentId(hash.0);
+		sc.net.nodes[0].node.send_payment_with_route(route, hash, RecipientOnionFields::secret_only(secret, total), id).map_err(|e| format!("{:?}", e))?;
+		sc.net.pump(0); sc.net.settle(12);
+		if !sc.net.claimable[1].iter().any(|x| x.0 == hash) { return Err("the MPP payment did not reach the recipient".into()); }
+		sc.ids.push(id); sc.tallies = vec![Tally::default()];
+		sc.tag = format!("c03chain MPP {:?} part-on-closed-channel={} part-on-live-channel={} seed={}", w, a, b, seed);
+		sc.ev_seen = sc.net.events[0].len();
+		let closer = if w.closer_sender { 0 } else { 1 };
+		let closing_tx = sc.net.nodes[closer].chain_monitor.chain_monitor.get_monitor(cid).map_err(|_| "no monitor")?.unsafe_get_latest_holder_commitment_txn(&sc.net.nodes[closer].logger)[0].clone();
+		let peer_id = sc.net.ids[1 - closer];
+		sc.net.nodes[closer].node.force_close_broadcasting_latest_txn(&cid, &peer_id, "closed by the application".to_string()).map_err(|e| format!("{:?}", e))?;
+		sc.net.pump(closer); sc.net.process_events(closer);
+		sc.net.disconnect(0, 1);
+		let ctxid = closing_tx.compute_txid();
+		let in_tx = closing_tx.output.iter().any(|o| o.value.to_sat() == a / 1000);
+		if in_tx == w.dust { return Err(format!("part on the closed channel dust={} but output present={}", w.dust, in_tx)); }
+		sc.log.push(format!("channel c0 closed by node {}; output of the part on it present: {}; channel c1 stays open", closer, in_tx));
+		// the part on the LIVE channel, read from the channel itself
+		let live_part = |sc: &Sc| sc.net.nodes[0].node.list_channels().iter().any(|ch| ch.channel_id == cid1 && ch.pending_outbound_htlcs.iter().any(|h| h.payment_hash == hash));
+		let listed_recent = |sc: &Sc| sc.net.nodes[0].node.list_recent_payments().iter().any(|r| match r { RecentPaymentDetails::Pending { payment_id, .. } | RecentPaymentDetails::Abandoned { payment_id, .. } => *payment_id == id, _ => false });
+		let check = |sc: &mut Sc, stage: &str, buried: bool| {
+			let mut rep = sc.ocf(&format!("{},events-pending", stage));
+			sc.drain();
+			for k in sc.ocf(stage) { if !rep.contains(&k) { rep.push(k); } }
+			let t = &sc.tallies[0]; let (sent, failed) = (t.sent, t.failed);
+			let live1 = live_part(sc);
+			if !buried && !rep.is_empty() { sc.rec.oracle_fail(format!("get_onchain_failed_outbound_htlcs reports the MPP part failed before ANTI_REORG_DELAY confirmations [{}] :: {} :: {}", stage, sc.tag, sc.log.join(" | "))); }
+			if in_tx && !rep.is_empty() { sc.rec.oracle_fail(format!("restart reconstruction reports the MPP part on the closed channel FAILED although it has a live non-dust output in the confirmed commitment transaction {} [{}] :: {} :: {}", ctxid, stage, sc.tag, sc.log.join(" | "))); }
+			if failed > 0 && (live1 || in_tx) && sent == 0 { sc.rec.oracle_fail(format!("PaymentFailed for an MPP payment although {} [{}] :: {} :: {}", if live1 { "its part on the LIVE channel is still pending in that channel" } else { "its part on the closed channel has a live output" }, stage, sc.tag, sc.log.join(" | "))); }
+			if sent == 0 && (live1 || in_tx) && !listed_recent(sc) { sc.rec.oracle_fail(format!("MPP payment with a part in flight is no longer listed by list_recent_payments (a retry would pay twice) [{}] :: {} :: {}", stage, sc.tag, sc.log.join(" | "))); }
+			if sent == 0 && !live1 && sc.restarted == 0 { sc.rec.oracle_fail(format!("the part on the live channel vanished without a fulfil [{}] :: {} :: {}", stage, sc.tag, sc.log.join(" | "))); }
+		};
+		sc.blocks(|n| { mine_transaction(n, &closing_tx); });
+		sc.blocks(|n| { connect_blocks(n, ANTI_REORG_DELAY - 2); });
+		check(sc, "mpp,depth=ARD-1", false);
+		if w.restarts & 1 != 0 { sc.restart_rout(true)?; check(sc, "mpp,depth=ARD-1,restarted", false); }
+		sc.blocks(|n| { connect_blocks(n, 1); });
+		if w.restarts & 16 != 0 { sc.restart()?; }
+		check(sc, "mpp,depth=ARD", true);
+		if w.restarts & 2 != 0 { sc.restart_rout(true)?; check(sc, "mpp,depth=ARD,restarted", true); }
+		let mut claimed = false;
+		if w.res == 0 {
+			sc.net.nodes[1].node.claim_funds(preimage); sc.net.pump(1); sc.net.process_events(1);
+			if in_tx { let txs: Vec<Transaction> = spending(&sc.net.nodes[1], ctxid, None).into_iter().filter(|t| t.compute_txid() != ctxid).collect(); for tx in txs.iter() { sc.blocks(|n| { mine_transaction(n, tx); }); } sc.log.push(format!("recipient's on-chain claim mined ({} tx)", txs.len())); }
+			sc.net.reconnect(0, 1); sc.net.settle(12);
+			claimed = true; sc.log.push("recipient claimed; peers reconnected (fulfil over the live channel)".into());
+			sc.drain();
+			if w.restarts & 4 != 0 { sc.restart()?; sc.drain(); }
+			sc.blocks(|n| { connect_blocks(n, ANTI_REORG_DELAY - 1); });
+			sc.ocf("mpp,claim-buried,events-pending"); sc.drain(); sc.ocf("mpp,claim-buried");
+		}
+		if w.restarts & 8 != 0 { sc.restart()?; if !claimed { check(sc, "mpp,end,restarted", true); } else { sc.drain(); } }
+		if !claimed { check(sc, "mpp,end", true); }
+		let t = &sc.tallies[0];
+		let ok = if claimed { t.sent == 1 && t.failed == 0 } else { t.sent == 0 && t.failed == 0 };
+		if !ok { sc.rec.oracle_fail(format!("MPP payment: {} PaymentSent, {} PaymentFailed, {} PaymentPathFailed but {} ({} restarts) :: {} :: {}", t.sent, t.failed, t.path_failed,
+			if claimed { "the recipient claimed it (one part on chain, one over the live channel): exactly one PaymentSent, no PaymentFailed" } else { "nobody resolved the part on the live channel: no terminal event yet" }, sc.restarted, sc.tag, sc.log.join(" | "))); }
+		*sc.rec.classes.entry(format!("outcome-mpp:{}:{}:{}", if claimed { "claimed" } else { "pending" }, if w.dust { "closed-part-dust" } else { "closed-part-live" }, if sc.restarted > 0 { "restarted" } else { "no-restart" })).or_insert(0) += 1;
 		Ok(())
 	}
 
@@ -1098,11 +1275,19 @@ mod chain {
 				7 => World { closer_sender: true, dance: 2, dust: false, res: 2, restarts: 20 },
 				8 => World { closer_sender: false, dance: 1, dust: false, res: 0, restarts: 32 + 8 },
 				9 => World { closer_sender: true, dance: 0, dust: false, res: 0, restarts: 32 + 4 },
-				_ => World { closer_sender: rng.chance(1, 3), dance: rng.below(3) as u8, dust: rng.chance(1, 4), res: rng.below(3) as u8, restarts: rng.below(64) as u8 },
+				10 => World { closer_sender: false, dance: 3, dust: false, res: 2, restarts: 0 },
+				11 => World { closer_sender: false, dance: 3, dust: false, res: 2, restarts: 6 },
+				12 => World { closer_sender: false, dance: 3, dust: false, res: 1, restarts: 2 },
+				15 => World { closer_sender: false, dance: 1, dust: false, res: 0, restarts: 64 },
+				16 => World { closer_sender: true, dance: 1, dust: true, res: 1, restarts: 64 + 8 },
+				k if k % 6 == 1 => World { closer_sender: false, dance: 3, dust: false, res: if rng.chance(2, 3) { 2 } else { 1 }, restarts: rng.below(128) as u8 },
+				_ => World { closer_sender: rng.chance(1, 3), dance: rng.below(3) as u8, dust: rng.chance(1, 4), res: rng.below(3) as u8, restarts: rng.below(128) as u8 },
 			};
 			rec.directive("reset");
 			let seed = rng.next();
-			match scenario(w, &mut rec, seed) {
+			let mpp = k == 13 || k == 14 || (k > 14 && k % 5 == 3);
+			let w = if k == 13 { World { closer_sender: false, dance: 0, dust: false, res: 0, restarts: 2 } } else if k == 14 { World { closer_sender: false, dance: 0, dust: true, res: 1, restarts: 10 } } else { w };
+			match if mpp { scenario_mpp(w, &mut rec, seed) } else { scenario(w, &mut rec, seed) } {
 				Ok(()) => {},
 				Err(e) => { errs += 1; rec.discarded += 1; rec.notes.insert(format!("discarded world {}", k), format!("{:?}: {}", w, e)); },
 			}
